@@ -108,6 +108,8 @@ SUPPORT = dict(file=FO, name="fv_norm", vis="pub(crate) ", code="""
         kani::cover!(p == 14);
         assert!(p <= 21);
         if max_w < 4.0 { assert!(p >= 12); }
+        // p is maximal: the next precision would not fit i16 (or the design limit 21 is reached)
+        assert!(p == 21 || (max_w * (1u32 << (p + 1)) as f64).round() >= 32768.0);
         assert!(n.chunks.len() == 1 && n.chunks[0].start == start && n.chunks[0].values.len() == size as usize);
         let scale = (1u32 << p) as f64;
         for i in 0..size as usize {
@@ -297,9 +299,9 @@ UNITS = [dict(
     kani=dict(
         functions=[dict(file=FO, fn="new", within=r"impl Normalizer16")],
         modules=[SUPPORT],
-        harnesses=[dict(name="k4_normalizer16_new_window3", kind="bounded", covers=1, timeout=1500,
+        harnesses=[dict(name="k4_normalizer16_new_window3", kind="bounded", covers=1, timeout=1500, props=["C01", "C10", "C03"],
                         bound="one window, 3 weights (every finite f64 triple with max < 1024), size 0..=3",
-                        claim="0<=p<=21; max w < 4 => p >= 12; k_i == round(w_i*2^p) as i16; start/len copied; the max weight is not saturated")],
+                        claim="0<=p<=21 and p is the LARGEST precision whose max coefficient fits i16; max w < 4 => p >= 12; k_i == round(w_i*2^p) as i16; start/len copied; the max weight is not saturated")],
     ),
 ), dict(
     id="K7",
@@ -311,19 +313,19 @@ UNITS = [dict(
         functions=[dict(file=FU8, fn="horiz_convolution"), dict(file=FU16, fn="horiz_convolution"), dict(file=FU84, fn="horiz_convolution"),
                    dict(file=FV8, fn="vert_convolution"), dict(file=FV8, fn="scale_row"), dict(file=FV8, fn="convolution_by_u8"), dict(file=FV8, fn="convolution_by_chunks")],
         modules=[SUPPORT, K7_U8X1, K7_U16X1, K7_VERT_U8, K7_U8X4],
-        harnesses=[dict(name="k7_u8x1_taps_%s" % t[0], kind="bounded", covers=0 if t[0] == "p21" else 1, timeout=900,
+        harnesses=[dict(name="k7_u8x1_taps_%s" % t[0], kind="bounded", covers=0 if t[0] == "p21" else 1, timeout=900, props=["C01", "C03", "C10", "C18", "C05"],
                         bound="tap table '%s' (precision %d, 2 windows over a 4-pixel line), ALL pixel values" % (t[0], t[1]),
                         claim="u8x1 horizontal kernel == fx for every pixel value; spare pixel and source untouched; table and row reads in bounds") for t in TAPS_A] + [
-            dict(name="k7_u8x1_pixels_fixed_any_taps", kind="bounded", covers=1, timeout=900, bound="pixel row [255,0,17,200], ALL i16 taps (3 + 2), precision 8 / 14 / 21",
+            dict(name="k7_u8x1_pixels_fixed_any_taps", kind="bounded", covers=1, timeout=900, props=["C01", "C03", "C10", "C18"], bound="pixel row [255,0,17,200], ALL i16 taps (3 + 2), precision 8 / 14 / 21",
                  claim="u8x1 horizontal kernel == fx for every tap value"),
             dict(name="k7_u8x1_any_window_position_memory_safe", kind="bounded", timeout=1500, props=["C03"],
                  bound="4-pixel line, 2 windows of 1..=3 taps at ANY position satisfying WinInv, ANY taps, ANY precision 1..=21, ANY pixels",
                  claim="memory safety for arbitrary finite custom kernels: every unchecked read (row window, clip table) is in bounds, no panic, frame"),
-            dict(name="k7_u16x1_taps_fixed", kind="bounded", covers=1, timeout=900, bound="two tap tables (precision 30 and 45), ALL u16 pixel values", claim="u16x1 horizontal kernel == fx (16 bit), no i64 overflow, frame"),
-            dict(name="k7_u16x1_pixels_fixed_any_taps", kind="bounded", timeout=900, bound="pixel row [65535,1,40000], ALL i32 taps (2), precision 30", claim="u16x1 horizontal kernel == fx for every tap value"),
-            dict(name="k7_vertical_u8_taps_fixed", kind="bounded", timeout=1500, bound="U8 3x3 -> 2x2, column offset 0..=1 symbolic, one tap table, ALL pixel values, arbitrary stale destination",
+            dict(name="k7_u16x1_taps_fixed", kind="bounded", covers=1, timeout=900, props=["C01", "C03", "C10"], bound="two tap tables (precision 30 and 45), ALL u16 pixel values", claim="u16x1 horizontal kernel == fx (16 bit), no i64 overflow, frame"),
+            dict(name="k7_u16x1_pixels_fixed_any_taps", kind="bounded", timeout=900, props=["C01", "C03"], bound="pixel row [65535,1,40000], ALL i32 taps (2), precision 30", claim="u16x1 horizontal kernel == fx for every tap value"),
+            dict(name="k7_vertical_u8_taps_fixed", kind="bounded", timeout=1500, props=["C01", "C03", "C05", "C09"], bound="U8 3x3 -> 2x2, column offset 0..=1 symbolic, one tap table, ALL pixel values, arbitrary stale destination",
                  claim="vertical u8 kernel == fx over the source column; result independent of the stale destination; spare pixel untouched"),
-            dict(name="k7_vertical_u8_pixels_fixed_any_taps", kind="bounded", timeout=1500, bound="concrete 3x3 image, ALL taps (2 + 1), precision 12", claim="vertical u8 kernel == fx for every tap value"),
+            dict(name="k7_vertical_u8_pixels_fixed_any_taps", kind="bounded", timeout=1500, props=["C01", "C03"], bound="concrete 3x3 image, ALL taps (2 + 1), precision 12", claim="vertical u8 kernel == fx for every tap value"),
             dict(name="k7_u8x4_taps_fixed", kind="bounded", timeout=900, props=["C01", "C07", "C03", "C05"], bound="U8x4 3x1 -> 1x1, one tap table, ALL pixel values",
                  claim="all four channels (alpha included) are convolved independently with the same taps; spare pixel untouched"),
         ],
